@@ -3,6 +3,7 @@ package main
 // Function and lemma verification: builds obligations and discharges them.
 
 import (
+	"regexp"
 	"fmt"
 	"go/ast"
 	"os"
@@ -49,6 +50,8 @@ type UnitResult struct {
 	ElapsedMs   int64
 	SampleQuery string
 }
+
+var pEventRe = regexp.MustCompile(`count\("P:([^"]+)"\)`)
 
 type VerifyOpts struct {
 	Safety  bool
@@ -97,6 +100,34 @@ func (w *World) VerifyFunc(fi *FuncInfo, c *Contract, opts VerifyOpts) (res *Uni
 	ex.fi, ex.contract, ex.funcKey = fi, c, key
 	ex.info, ex.pkg = fi.Pkg.TypesInfo, fi.Pkg.Types
 	ex.safety, ex.traceEvents = opts.Safety || opts.Bounds, opts.Events || (c != nil && len(c.AtCall) > 0)
+	ex.pEvents = nil
+	if c != nil {
+		seenP := map[string]bool{}
+		var texts []string
+		for _, cl := range c.Ensures {
+			texts = append(texts, cl.Text)
+		}
+		for _, cls := range c.Loops {
+			for _, cl := range cls {
+				texts = append(texts, cl.Text)
+			}
+		}
+		for _, ac := range c.AtCall {
+			texts = append(texts, ac.Clause.Text)
+		}
+		for _, t := range texts {
+			for _, m := range pEventRe.FindAllStringSubmatch(t, -1) {
+				if !seenP[m[1]] {
+					seenP[m[1]] = true
+					ex.pEvents = append(ex.pEvents, m[1])
+				}
+			}
+		}
+		if len(ex.pEvents) > 0 {
+			sort.Strings(ex.pEvents)
+			ex.traceEvents = true
+		}
+	}
 	ex.boundsOnly = opts.Bounds && !opts.Safety
 	ex.oblCalls = true
 	sig := fi.Obj.Type().(*types.Signature)
